@@ -158,6 +158,156 @@ theorem show_parse_value (pyFloat : List Char → Option Rat) (pyRepr : Rat → 
     rw [hstrip, List.append_assoc, List.singleton_append, splitBlank_two _ _ htn htb hu hub ' ' hb]
     simp only [hc.roundtrip, joinSep, hp]
 
+/-! ## Grammar semantics
+
+Spec (independent of the code's tables): the dimension vector of one unit of every documented symbol,
+by column of the documentation's table. -/
+
+def specDim (s : String) : Option Dim :=
+  if s ∈ ["km", "m", "dm", "cm", "mm", "dmm", "cmm", "µm", "nm", "pm", "fm"] then some ⟨1, 0, 0⟩
+  else if s ∈ ["h", "min", "s", "ds", "cs", "ms", "µs", "ns", "ps", "fs"] then some ⟨0, 1, 0⟩
+  else if s ∈ ["kmol", "mol", "dmol", "cmol", "mmol", "µmol", "nmol", "pmol", "fmol", "molecule"] then some ⟨0, 0, 1⟩
+  else if s ∈ ["kL", "L", "mL", "µL", "nL", "pL", "fL"] then some ⟨3, 0, 0⟩          -- litres: length³
+  else if s ∈ ["kM", "M", "dM", "cM", "mM", "µM", "nM", "pM", "fM"] then some ⟨-3, 0, 1⟩  -- molar: amount / length³
+  else none
+
+/-- every supported symbol enters with the dimension the documentation gives it -/
+theorem symbol_dimension : ∀ s ∈ allSyms, symDimOf s = specDim s ∧ (specDim s).isSome = true := by decide +kernel
+
+/-- the base units a symbol names have the symbol's SI meaning (litre and molar families through
+`C06.litre_family` / `C06.molar_family`; base symbols name themselves) -/
+def volNamesOk (s : String) : Bool :=
+  match volBase.lookup s with
+  | some b => blockNames ⟨'.', s.toList, []⟩ == [("space", b)]
+  | none => false
+def molarNamesOk (s : String) : Bool :=
+  match concBase.lookup s with
+  | some (q, sp) => blockNames ⟨'.', s.toList, []⟩ == [("space", sp), ("quantity", q)]
+  | none => false
+
+theorem symbol_base_units :
+    (∀ s ∈ spaceSyms, blockNames ⟨'.', s.toList, []⟩ = [("space", s)]) ∧
+    (∀ s ∈ timeSyms, blockNames ⟨'.', s.toList, []⟩ = [("time", s)]) ∧
+    (∀ s ∈ qtySyms, blockNames ⟨'.', s.toList, []⟩ = [("quantity", s)]) ∧
+    (∀ s ∈ volumeSyms, volNamesOk s = true) ∧ (∀ s ∈ densitySyms, molarNamesOk s = true) := by
+  decide +kernel
+
+/-- the dimension a factor list denotes: Σ signed exponent × symbol dimension -/
+def denoteDim (fs : List Factor) : Dim :=
+  fs.foldr (fun f d => (Dim.smul f.signedExp ((specDim f.sym).getD Dim.zero)).add d) Dim.zero
+
+theorem factorsDim_eq_denote (fs : List Factor) (hs : ∀ g ∈ fs, g.sym ∈ allSyms) :
+    factorsDim (fs.map fun g => (g.sym, g.signedExp)) = denoteDim fs := by
+  induction fs with
+  | nil => rfl
+  | cons f fs ih =>
+    simp only [List.map_cons, factorsDim, denoteDim, List.foldr_cons]
+    rw [(symbol_dimension f.sym (hs f (by simp))).1]
+    have := ih (fun g hg => hs g (by simp [hg]))
+    simp only [denoteDim] at this
+    rw [this]
+
+/-- **grammar semantics (dimension)**: a unit expression of the documented grammar — supported symbols
+(base, litre and molar families), `.` and `/` separators, optional integer exponents — when accepted is
+read with the dimension its symbols define.  The full statement also demands the SI scale
+`Π scale(symbol)^exponent`; see `grammar_semantics_partial` below for what is proved about it. -/
+theorem grammar_dimension (f : Factor) (fs : List Factor) (hdiv : f.div = false)
+    (hs : ∀ g ∈ f :: fs, g.sym ∈ allSyms) (u : Units)
+    (h : parseUnitsChars (renderFactors (f :: fs)) = .ok u) : u.dim = denoteDim (f :: fs) := by
+  rw [parse_renderFactors f fs hdiv hs] at h
+  rw [finishFactors_dim h, factorsDim_eq_denote _ hs]
+
+/-- **a/b ↔ a.b-1, and everything else about the spelling**: the result of reading a factor list depends
+only on the list of (symbol, signed exponent); `x/sym^e` and `x.sym^-e` have the same signed exponent. -/
+theorem grammar_reading (f : Factor) (fs : List Factor) (hdiv : f.div = false)
+    (hs : ∀ g ∈ f :: fs, g.sym ∈ allSyms) :
+    parseUnitsChars (renderFactors (f :: fs)) = finishFactors ((f :: fs).map fun g => (g.sym, g.signedExp)) :=
+  parse_renderFactors f fs hdiv hs
+
+theorem slash_is_negative_exponent (sym : String) (e : Int) :
+    (⟨true, sym, some e⟩ : Factor).signedExp = (⟨false, sym, some (-e)⟩ : Factor).signedExp ∧
+    (⟨true, sym, none⟩ : Factor).signedExp = (⟨false, sym, some (-1)⟩ : Factor).signedExp := by
+  simp [Factor.signedExp]
+
+theorem slash_vs_negative_exponent (f : Factor) (l1 l2 : List Factor) (sym : String) (e : Int) (hdiv : f.div = false)
+    (hs : ∀ g ∈ f :: (l1 ++ ⟨true, sym, some e⟩ :: l2), g.sym ∈ allSyms) :
+    parseUnitsChars (renderFactors (f :: (l1 ++ ⟨true, sym, some e⟩ :: l2))) =
+      parseUnitsChars (renderFactors (f :: (l1 ++ ⟨false, sym, some (-e)⟩ :: l2))) := by
+  rw [parse_renderFactors _ _ hdiv hs, parse_renderFactors _ _ hdiv (by
+    intro g hg
+    simp only [List.mem_cons, List.mem_append] at hg hs
+    rcases hg with hg | hg | hg | hg
+    · exact hs g (Or.inl hg)
+    · exact hs g (Or.inr (Or.inl hg))
+    · subst hg; exact hs ⟨true, sym, some e⟩ (Or.inr (Or.inr (Or.inl rfl)))
+    · exact hs g (Or.inr (Or.inr (Or.inr hg))))]
+  simp [Factor.signedExp]
+
+/-- **order of the factors**: the dimension read is invariant under any permutation of the factors.
+(That acceptance itself and the base units chosen are order-independent — every named field ends with the
+unit every factor names, `addBlocks_ok_get` — is proved for the accepted case; the equivalence of
+acceptance under permutation is covered by the exhaustive correspondence, see `grammar_semantics_partial`.) -/
+theorem permutation_dimension (f f' : Factor) (fs fs' : List Factor) (hd : f.div = false) (hd' : f'.div = false)
+    (hs : ∀ g ∈ f :: fs, g.sym ∈ allSyms) (hp : (f :: fs).Perm (f' :: fs')) (u u' : Units)
+    (h : parseUnitsChars (renderFactors (f :: fs)) = .ok u)
+    (h' : parseUnitsChars (renderFactors (f' :: fs')) = .ok u') : u.dim = u'.dim := by
+  have hs' : ∀ g ∈ f' :: fs', g.sym ∈ allSyms := fun g hg => hs g (hp.mem_iff.2 hg)
+  rw [parse_renderFactors f fs hd hs] at h
+  rw [parse_renderFactors f' fs' hd' hs'] at h'
+  rw [finishFactors_dim h, finishFactors_dim h']
+  exact factorsDim_perm (hp.map _)
+
+/-- FULL STATEMENT (not proved in this form): for every factor list `fs` of the grammar,
+`parseUnitsChars (renderFactors fs) = .ok u` iff no two factors name different base units of one kind,
+and then `u.dim = denoteDim fs ∧ siFactor u.sys u.dim = Π_f (SI value of f.sym) ^ f.signedExp`, the same
+for every permutation of `fs`.
+PROVED: the reading (`grammar_reading`), the dimension (`grammar_dimension`), invariance of the reading
+under `a/b ↔ a.b-1` (`slash_vs_negative_exponent`) and of the dimension under permutation
+(`permutation_dimension`); on acceptance every field named by a factor holds exactly the base unit that
+factor names (below), whose SI scales are the table facts `C06.scale_is_SI_*`, `C06.litre_family`,
+`C06.molar_family`; rejection when two factors disagree (`reject_two_units`).
+MISSING: the algebraic step from "every field holds the named base unit, exponent = Σ" to the product
+formula for `siFactor`, and "consistent ⇒ accepted".  Both are checked exactly (rational arithmetic) by the
+harness oracle on every 1-factor string, every symbol pair × both separators and random 3-factor strings. -/
+theorem grammar_semantics_partial (f : Factor) (fs : List Factor) (hdiv : f.div = false)
+    (hs : ∀ g ∈ f :: fs, g.sym ∈ allSyms) (u : Units)
+    (h : parseUnitsChars (renderFactors (f :: fs)) = .ok u) :
+    u.dim = denoteDim (f :: fs) ∧ u.sys.valid = true ∧
+    ∃ acc : Acc, u.sys = ⟨acc.space.getD defaultSpace, acc.time.getD defaultTime, acc.qty.getD defaultQty⟩ ∧
+      ∀ g ∈ f :: fs, ∀ n ∈ blockNames g.toBlock, acc.get n.1 = some n.2 := by
+  refine ⟨grammar_dimension f fs hdiv hs u h, ?_, ?_⟩
+  · have : parseUnits (String.ofList (renderFactors (f :: fs))) = .ok u := by simpa [parseUnits] using h
+    exact C06.parseUnits_valid this
+  · rw [parse_renderFactors f fs hdiv hs, finishFactors, ← addBlocks_factors] at h
+    cases hc : ({} : Acc).addBlocks ((f :: fs).map Factor.toBlock) with
+    | error x => rw [hc] at h; cases h
+    | ok acc =>
+      rw [hc] at h
+      simp only [] at h
+      split at h
+      · cases h
+        refine ⟨acc, rfl, ?_⟩
+        intro g hg n hn
+        exact (addBlocks_ok_get _ hc).1 g.toBlock (List.mem_map_of_mem hg) n hn
+      · cases h
+
+example : parseUnitsChars (renderFactors [⟨false, "µM", none⟩, ⟨true, "s", none⟩]) =
+    .ok ⟨⟨"dm", "s", "µmol"⟩, ⟨-3, -1, 1⟩⟩ ∧ renderFactors [⟨false, "µM", none⟩, ⟨true, "s", none⟩] = "µM/s".toList := by
+  decide +kernel
+
+/-! ## The `u` spelling -/
+
+/-- `um us umol uL uM` are read as `µm µs µmol µL µM`, alone and with an exponent -/
+theorem u_spelling :
+    ∀ p ∈ [("um", "µm"), ("us", "µs"), ("umol", "µmol"), ("uL", "µL"), ("uM", "µM")],
+      ∀ suffix ∈ ["", "2", "-1", "-3"],
+        parseUnitsChars (p.1 ++ suffix).toList = parseUnitsChars (p.2 ++ suffix).toList ∧
+        (parseUnitsChars (p.1 ++ suffix).toList).isError = false := by
+  decide +kernel
+
+example : parseUnitsChars "umol/uL.us".toList = .ok ⟨⟨"mm", "µs", "µmol"⟩, ⟨-3, 1, 1⟩⟩ ∧
+    parseUnitsChars "um2/us".toList = parseUnitsChars "µm2.µs-1".toList := by decide +kernel
+
 /-! ## Rejection (text outside the grammar raises)
 
 `s` below is the text after the preprocessing of `parse_units` (`prepUnits`: the `u`→`µ` replace chain,
